@@ -272,7 +272,8 @@ def run(chk):
     ob_overlays(chk, P)
     ob_find(chk, P, 2 if chk.tier == 'quick' else 3)
     ob_variable(chk, P)
-    from checks.C01 import ob_parse_literal
+    from checks.C01 import ob_parse_literal, ob_parse_literal_strings
+    ob_parse_literal_strings(chk, P)
     ob_parse_literal(chk, P)      # 'every literal prints as the value it denotes': integer literals over the whole 64-bit range
     # translator validation: the reference lookup itself against the native build on a sample of paths
     for path in [('a', 0), ('a', -1, 'size'), ('a', 2, 'k'), ('s', 'size'), ('e', 'size'), ('o', 'x', 'y'), ('size',), ('a', 'last', 'first')]:
